@@ -773,19 +773,179 @@ end
 
 /-! ### C09 -/
 
-/-- **Every signature of the grammar parses to the type that prints it**: scalars, dynamic
-    value, object, unknown, void, lists, maps, tuples, named structs (template names included),
-    nested arbitrarily.  In particular the printed signature of the result is the identical
-    string. -/
-theorem print_parse (t : Ty) (h : WF t) : parseSig (print t) = .ok t := by
+/-! ### the nesting of a printed type -/
+
+mutual
+/-- how deep lists, maps, tuples and structs are nested in a type -/
+def nest : Ty → Nat
+  | .basic _ => 0
+  | .list t => nest t + 1
+  | .map k v => max (nest k) (nest v) + 1
+  | .tuple ts => nestList ts + 1
+  | .struct _ ms => nestMembers ms + 1
+def nestList : List Ty → Nat
+  | [] => 0
+  | t :: r => max (nest t) (nestList r)
+def nestMembers : List (Bytes × Ty) → Nat
+  | [] => 0
+  | (_, t) :: r => max (nest t) (nestMembers r)
+end
+
+def isBracket (c : UInt8) : Bool := c == 91 || c == 123 || c == 40 || c == 93 || c == 125 || c == 41
+
+theorem nesting_skip (w rest : Bytes) (d m : Nat) (h : ∀ c ∈ w, isBracket c = false) :
+    nestingFrom (w ++ rest) d m = nestingFrom rest d m := by
+  induction w with
+  | nil => rfl
+  | cons c w ih =>
+    have hc := h c (by simp)
+    simp only [isBracket, Bool.or_eq_false_iff] at hc
+    obtain ⟨⟨⟨⟨⟨h1, h2⟩, h3⟩, h4⟩, h5⟩, h6⟩ := hc
+    simp only [List.cons_append, nestingFrom, h1, h2, h3, h4, h5, h6, Bool.or_self, Bool.false_eq_true, if_false]
+    exact ih (fun x hx => h x (by simp [hx]))
+
+theorem identChar_no_bracket (c : UInt8) (h : isIdentChar c = true) : isBracket c = false := by
+  cases hb : isBracket c with
+  | false => rfl
+  | true =>
+    simp only [isBracket, Bool.or_eq_true, beq_iff_eq] at hb
+    rcases hb with ((((rfl | rfl) | rfl) | rfl) | rfl) | rfl <;> revert h <;> decide
+
+theorem ident_no_bracket (n : Bytes) (h : IsIdent n) : ∀ c ∈ n, isBracket c = false := by
+  obtain ⟨b, r, rfl, hb, hr⟩ := h
+  intro c hc
+  rcases List.mem_cons.mp hc with rfl | hc
+  · exact identChar_no_bracket _ (by simp [isIdentChar, hb])
+  · exact identChar_no_bracket c (hr c hc)
+
+theorem structName_no_bracket (n : Bytes) (h : IsStructName n) : ∀ c ∈ n, isBracket c = false := by
+  rcases h with h | ⟨a, b, ha, hb, rfl⟩
+  · exact ident_no_bracket n h
+  · intro c hc
+    simp only [List.mem_append, List.mem_cons, List.mem_nil_iff, or_false] at hc
+    rcases hc with ((hc | rfl) | hc) | rfl
+    · exact ident_no_bracket a ha c hc
+    · decide
+    · exact ident_no_bracket b hb c hc
+    · decide
+
+theorem memberNames_no_bracket : (ms : List (Bytes × Ty)) → WFMembers ms → ∀ c ∈ memberNames ms, isBracket c = false
+  | [], _, c, hc => by simp [memberNames] at hc
+  | (n, t) :: r, h, c, hc => by
+    simp only [WFMembers] at h
+    simp only [memberNames, List.mem_append, List.mem_cons, List.mem_nil_iff, or_false] at hc
+    rcases hc with (rfl | hc) | hc
+    · decide
+    · exact ident_no_bracket n h.1 c hc
+    · exact memberNames_no_bracket r h.2.2 c hc
+
+theorem nesting_open (c : UInt8) (hc : c = 91 ∨ c = 123 ∨ c = 40) (rest : Bytes) (d m : Nat) :
+    nestingFrom (c :: rest) d m = nestingFrom rest (d + 1) (max m (d + 1)) := by
+  rcases hc with rfl | rfl | rfl <;> rfl
+
+theorem nesting_close (c : UInt8) (hc : c = 93 ∨ c = 125 ∨ c = 41) (rest : Bytes) (d m : Nat) :
+    nestingFrom (c :: rest) (d + 1) m = nestingFrom rest d m := by
+  rcases hc with rfl | rfl | rfl <;> rfl
+
+mutual
+/-- reading a printed type raises the deepest level seen by its nesting, and comes back to the level it started at -/
+theorem nesting_print : (t : Ty) → WF t → ∀ (rest : Bytes) (d m : Nat), d ≤ m →
+    nestingFrom (print t ++ rest) d m = nestingFrom rest d (max m (d + nest t))
+  | .basic c, h, rest, d, m, hdm => by
+    simp only [WF] at h
+    have : isBracket c = false := by revert h; simp only [basicLetters]; intro h; simp at h; rcases h with rfl|rfl|rfl|rfl|rfl|rfl|rfl|rfl|rfl|rfl|rfl|rfl|rfl|rfl|rfl|rfl <;> rfl
+    have hs := nesting_skip [c] rest d m (by intro x hx; simp at hx; subst hx; exact this)
+    simp only [print, nest]
+    rw [hs]; congr 1; omega
+  | .list t, h, rest, d, m, hdm => by
+    simp only [WF] at h
+    have ih := nesting_print t h (93 :: rest) (d + 1) (max m (d + 1)) (by omega)
+    simp only [print, nest, List.append_assoc, List.cons_append, List.nil_append]
+    rw [nesting_open 91 (Or.inl rfl), ih, nesting_close 93 (Or.inl rfl)]
+    congr 1; omega
+  | .map k v, h, rest, d, m, hdm => by
+    simp only [WF] at h
+    have ihk := nesting_print k h.1 (print v ++ 125 :: rest) (d + 1) (max m (d + 1)) (by omega)
+    have ihv := nesting_print v h.2 (125 :: rest) (d + 1) (max (max m (d + 1)) (d + 1 + nest k)) (by omega)
+    simp only [print, nest, List.append_assoc, List.cons_append, List.nil_append]
+    rw [nesting_open 123 (Or.inr (Or.inl rfl)), ihk, ihv, nesting_close 125 (Or.inr (Or.inl rfl))]
+    congr 1; omega
+  | .tuple ts, h, rest, d, m, hdm => by
+    simp only [WF] at h
+    have ih := nesting_printList ts h (41 :: rest) (d + 1) (max m (d + 1)) (by omega)
+    simp only [print, nest, List.append_assoc, List.cons_append, List.nil_append]
+    rw [nesting_open 40 (Or.inr (Or.inr rfl)), ih, nesting_close 41 (Or.inr (Or.inr rfl))]
+    congr 1; omega
+  | .struct n ms, h, rest, d, m, hdm => by
+    simp only [WF] at h
+    rw [print_struct]
+    have ih := nesting_printMembers ms h.2 (41 :: 60 :: (n ++ (memberNames ms ++ 62 :: rest))) (d + 1) (max m (d + 1)) (by omega)
+    have hskip := nesting_skip (60 :: (n ++ memberNames ms ++ [62])) rest d (max (max m (d + 1)) (d + 1 + nestMembers ms)) (by
+      intro c hc
+      simp only [List.mem_cons, List.mem_append, List.mem_nil_iff, or_false] at hc
+      rcases hc with rfl | (hc | hc) | rfl
+      · decide
+      · exact structName_no_bracket n h.1 c hc
+      · exact memberNames_no_bracket ms h.2 c hc
+      · decide)
+    simp only [nest, List.append_assoc, List.cons_append, List.nil_append] at hskip ⊢
+    rw [nesting_open 40 (Or.inr (Or.inr rfl)), ih, nesting_close 41 (Or.inr (Or.inr rfl)), hskip]
+    congr 1; omega
+theorem nesting_printList : (ts : List Ty) → WFList ts → ∀ (rest : Bytes) (d m : Nat), d ≤ m →
+    nestingFrom (printList ts ++ rest) d m = nestingFrom rest d (max m (d + nestList ts))
+  | [], _, rest, d, m, hdm => by simp only [printList, nestList, List.nil_append]; congr 1; omega
+  | t :: r, h, rest, d, m, hdm => by
+    simp only [WFList] at h
+    have iht := nesting_print t h.1 (printList r ++ rest) d m hdm
+    have ihr := nesting_printList r h.2 rest d (max m (d + nest t)) (by omega)
+    simp only [printList, nestList, List.append_assoc]
+    rw [iht, ihr]; congr 1; omega
+theorem nesting_printMembers : (ms : List (Bytes × Ty)) → WFMembers ms → ∀ (rest : Bytes) (d m : Nat), d ≤ m →
+    nestingFrom (printMembers ms ++ rest) d m = nestingFrom rest d (max m (d + nestMembers ms))
+  | [], _, rest, d, m, hdm => by simp only [printMembers, nestMembers, List.nil_append]; congr 1; omega
+  | (n, t) :: r, h, rest, d, m, hdm => by
+    simp only [WFMembers] at h
+    have iht := nesting_print t h.2.1 (printMembers r ++ rest) d m hdm
+    have ihr := nesting_printMembers r h.2.2 rest d (max m (d + nest t)) (by omega)
+    simp only [printMembers, nestMembers, List.append_assoc]
+    rw [iht, ihr]; congr 1; omega
+end
+
+/-- the nesting `signature.Parse` measures on a printed type is the nesting of the type -/
+theorem nesting_of_print (t : Ty) (h : WF t) : nesting (print t) = nest t := by
+  have := nesting_print t h [] 0 0 (by omega)
+  simp only [List.append_nil, nestingFrom] at this
+  unfold nesting; rw [this]; omega
+
+theorem print_parseU (t : Ty) (h : WF t) : parseSigU (print t) = .ok t := by
   have hp := p_all t h (fuelFor (print t)) [] (by unfold fuelFor; exact need_bound t) follow_nil
   rw [List.append_nil] at hp
-  simp [parseSig, hp]
+  simp [parseSigU, hp]
+
+/-- **Every signature of the grammar parses to the type that prints it**: scalars, dynamic
+    value, object, unknown, void, lists, maps, tuples, named structs (template names included),
+    nested arbitrarily — up to `MaxDepth` levels, the bound `signature.Parse` sets itself.  In particular
+    the printed signature of the result is the identical string. -/
+theorem print_parse (t : Ty) (h : WF t) (hd : nest t ≤ maxDepth) : parseSig (print t) = .ok t := by
+  unfold parseSig
+  rw [nesting_of_print t h, if_neg (by omega)]
+  exact print_parseU t h
+
+/-- **Deeper than `MaxDepth` is refused** — before the parser, which calls itself once per level, sees the text:
+    whatever the length of a hostile signature, the depth of the calls is bounded. -/
+theorem too_deep_refused (inp : Bytes) (h : maxDepth < nesting inp) : parseSig inp = .error .err := by
+  unfold parseSig; rw [if_pos h]
+
+/-- a type one level deeper than allowed: printed, it is refused; it parsed before the repair
+    (the stack of the goroutine permitting) -/
+theorem deeper_type_refused (t : Ty) (h : WF t) (hd : maxDepth < nest t) :
+    parseSig (print t) = .error .err ∧ parseSigU (print t) = .ok t :=
+  ⟨too_deep_refused _ (by rw [nesting_of_print t h]; exact hd), print_parseU t h⟩
 
 /-- printing is injective on the grammar's types (corollary) -/
 theorem print_injective (a b : Ty) (ha : WF a) (hb : WF b) (h : print a = print b) : a = b := by
-  have h1 := print_parse a ha
-  have h2 := print_parse b hb
+  have h1 := print_parseU a ha
+  have h2 := print_parseU b hb
   rw [h] at h1; rw [h1] at h2
   exact Except.ok.inj h2
 
@@ -819,5 +979,6 @@ example : parseSig (print exTy) = .ok exTy := print_parse exTy (by
     isIdent1 98 (by decide), by simp [WF, basicLetters], isIdent1 99 (by decide), ?_, trivial⟩
   refine ⟨by simp [WF, basicLetters], by simp [WF, basicLetters], ?_, trivial⟩
   exact ⟨Or.inr ⟨[84], [85], isIdent1 84 (by decide), isIdent1 85 (by decide), rfl⟩, trivial⟩)
+  (by simp [exTy, nest, nestMembers, nestList, maxDepth])
 
 end QiVerif.C09
